@@ -1,6 +1,7 @@
 """Per-path obligation discharge shared by all property harnesses."""
 from __future__ import annotations
 
+import os
 import time
 import traceback
 
@@ -301,6 +302,10 @@ def run_job(name, run, *, timeout_ms=60000, max_paths=20000, prune=True, prune_t
         tr = load.Tracer(watch)
         with tr:
             gen = solve.explore(run, max_paths=max_paths, prune=prune, prune_timeout_ms=prune_timeout_ms)
+            # a changed implementation can blow the exploration up (thousands of slow pruning queries): the job then stops
+            # exploring, checks the paths it has, and is reported incomplete (exit 2 unless one of them is a violation)
+            solve.JOB_DEADLINE = t0 + float(os.environ.get("VERIF_JOB_BUDGET_S", "900" if timeout_ms <= 120000 else "3600"))
+            core.DEADLINE = t0 + float(os.environ.get("VERIF_EXPLORE_BUDGET_S", "240" if timeout_ms <= 120000 else "1500"))
             paths = []
             cap_hit = False
             try:
@@ -312,6 +317,9 @@ def run_job(name, run, *, timeout_ms=60000, max_paths=20000, prune=True, prune_t
                 # the explored paths are still checked (a counterexample on one of them is a counterexample);
                 # the job is reported as incomplete afterwards
                 cap_hit = True
+        core.DEADLINE = None
+        if cap_hit and len(paths) > 30:
+            paths = paths[:30]  # the job is incomplete anyway: look for a counterexample on the first paths only
         res["functions"] = sorted(tr.funcs)
         witnessed = set()
         conc_runs = {}  # path index -> list of (values, concolic ctx, concolic Out)
@@ -410,7 +418,15 @@ def run_job(name, run, *, timeout_ms=60000, max_paths=20000, prune=True, prune_t
                     continue
                 if z3.is_false(cf) and feas == "sat":
                     # a claim that is literally False on a path with a reachability witness: its negation holds on the whole path
+                    # (every point of the path is a counterexample: hand the replay one of them -- the concrete point that
+                    # witnessed the path, else a solver model of the path condition -- so that it probes the right regime)
                     r, dt, mdl = "sat", 0.0, {}
+                    if conc_runs.get(pi):
+                        mdl = dict(conc_runs[pi][0][0])
+                    else:
+                        _r2, dt, _m2 = solve.check(C, cf, min(timeout_ms, 10000), inputs=inputs, cons=cons + proved)
+                        if _r2 == "sat" and _m2:
+                            mdl = _m2
                 else:
                     r, dt, mdl = solve.check(C, cf, timeout_ms, inputs=inputs, cons=cons + proved)
                 v = {"obligation": f"{tag}/{cname}", "verdict": r, "time_s": round(dt, 3), "kind": "aux" if cname.startswith("(internal)") else "claim"}
@@ -457,11 +473,13 @@ def run_job(name, run, *, timeout_ms=60000, max_paths=20000, prune=True, prune_t
             res["solver_time"] += C.solver_time
         Ctx.current = None
         if cap_hit:
-            res["error"] = f"HarnessError: path cap hit: more than {max_paths} paths; only the first {len(paths)} were explored and checked"
+            res["error"] = f"HarnessError: path cap hit: more than {max_paths} paths or the exploration time budget exhausted; only the first {len(paths)} were explored and checked"
     except BaseException as e:  # noqa
         if isinstance(e, (KeyboardInterrupt, SystemExit)):
             raise
         res["error"] = f"{type(e).__name__}: {e}\n{traceback.format_exc()}"
+    solve.JOB_DEADLINE = None
+    core.DEADLINE = None
     res["sha"] = dict(load.SHA)
     res["wall_s"] = round(time.time() - t0, 3)
     return res
